@@ -434,6 +434,9 @@ func coordinator(args []string) {
 				for sc.Scan() {
 					var r Record
 					if err := json.Unmarshal(sc.Bytes(), &r); err != nil {
+						if fastStop && atomic.LoadInt32(&fastStopped) != 0 {
+							continue // the worker was killed in the middle of a line
+						}
 						harnessErr <- "bad worker record: " + err.Error() + ": " + clip(sc.Text())
 						continue
 					}
